@@ -8,10 +8,13 @@ ACTIVE = os.environ.get('MALTOOLBOX_VERIF_TRACE') == '1'
 
 if ACTIVE:
     from harness.tracer import TRACER
+    from harness.gtracer import GTRACER
     TRACER.install()
+    GTRACER.install()
 
     def pytest_runtest_setup(item):
         TRACER.current_label = item.nodeid
+        GTRACER.current_label = item.nodeid
 
     def pytest_sessionfinish(session, exitstatus):
         out = os.environ.get('MALTOOLBOX_VERIF_TRACE_OUT')
@@ -28,4 +31,4 @@ if ACTIVE:
             specs.setdefault(key, spec)
             traces.append({'id': n + 1, 'label': tr.label, 'lang': key, 'events': tr.events})
         with open(out, 'w') as f:
-            json.dump({'traces': traces, 'specs': specs}, f)
+            json.dump({'traces': traces, 'specs': specs, 'gtraces': GTRACER.dump()}, f)
